@@ -369,6 +369,11 @@ def run(ctx, cfg=CFG):
     # before sorted section, newest entry first at every level, tombstones hide - the same rule instances are obligations here
     from . import c05
     c05.r3_precedence(ctx, c05.CFG)
+    # ... and on two more shared mechanisms: every bucket is persisted by save_all (what the container's write relies on after an
+    # update-log rollover), and the archive's allocate-write-advance sequence runs under exclusive access (round 6: C04-r6m1 / r6m2)
+    c05.r8_persist_every_bucket(ctx, c05.CFG)
+    from . import c11
+    c11.r6_exclusive_alloc(ctx)
     r6_persist_errors(ctx, cfg)
     r1_remap(ctx, cfg)
     r2_single_decode(ctx, cfg)
